@@ -281,6 +281,27 @@ theorem deterministic_is_invalid_arg (f : ErrFeat) (hf : IsModuleFailure f) (cau
     simpa [loop] using this
   refine ⟨trivial, hrun, ?_, ?_⟩ <;> (rw [hrun]; rfl)
 
+
+/-- **An interrupted execution is not a deterministic failure.**  When a wasm call returns a runtime error
+while the executor's context is dead (per-block execution time-out, cancellation), `wasmCall`'s error does
+not carry the deterministic marker, tier 2 answers `Canceled` / `DeadlineExceeded` / `Unavailable` — never
+`InvalidArgument` — and the worker classifies that answer as retryable, after any progress. -/
+theorem interrupted_execution_is_retried (c : CtxErr) (cause : Cause) (hdr : Bool) (ups post : List RecvEv)
+    (hups : ∀ ev ∈ ups, ev.Progress) :
+    let f := moduleFailureP false (some c)
+    let c2 := (mapErr tier2Table cause f).code
+    f.wasmDet = false ∧ c2 ≠ .invalidArgument ∧
+    observe cfg ⟨.stream hdr (ups ++ .err (statusErr c2) :: post), none⟩
+      = ⟨.retryable (statusErr c2), none, none⟩ := by
+  have hobs := fun c2 => stream_error_classification cfg hdr ups post (statusErr c2) hups
+  cases c <;> cases cause <;>
+    (refine ⟨rfl, by decide, ?_⟩; rw [hobs]; rfl)
+
+/-- A module that panicked failed deterministically whatever the state of the context (the panic is looked
+at before the context). -/
+theorem panic_is_module_failure (ctx : Option CtxErr) : IsModuleFailure (moduleFailureP true ctx) := by
+  simp [IsModuleFailure, moduleFailureP]
+
 /-- Tier 1 on its own also maps a module failure (in development mode the module runs on tier 1) to
 `invalid_argument`. -/
 theorem tier1_module_failure_is_invalid_arg (f : ErrFeat) (hf : IsModuleFailure f) (cause : Cause) :
@@ -437,7 +458,7 @@ example : workLoop cfg none
      ⟨.stream false [.msg .update, .err (statusErr .invalidArgument)], none⟩,
      ⟨.stream false [], none⟩] = ⟨.failedStatus (statusErr .invalidArgument), 2⟩ := by decide
 
-example : IsModuleFailure (moduleFailure none) := by simp [IsModuleFailure, moduleFailure]
+example : IsModuleFailure (moduleFailure none) := by simp [IsModuleFailure, moduleFailure, moduleFailureP]
 
 /-- cancellation inside the second `Recv`: `work` returns an empty result, `Work` reports the context error -/
 example : workLoop cfg none [⟨.stream false [.msg .update, .msg .update], some (.recv 1, .canceled)⟩,
